@@ -72,6 +72,11 @@ def _mk_probe(node, env):
 prog.EXTRA_NODES["probe"] = _mk_probe
 
 RICH = [
+    # literals whose text depends on the dialect (MySQL doubles backslashes; booleans; JSON documents): a process-wide memo of rendered
+    # literals would make their text depend on which class context rendered them first
+    {"cls": "C", "sources": {}, "steps": [["from_", [["src", "T"]]], ["select", [["col", "T", "a"], ["vw", ["raw", "sel\\ect"]]]], ["where", [["eq", ["col", "T", "a"], ["raw", "C:\\tmp\\new"]]]],
+                                          ["where", [["like", ["col", "T", "b"], ["raw", "100\\%"]]]], ["where", [["eq", ["col", "T", "c"], ["raw", True]]]],
+                                          ["where", [["eq", ["col", "T", "id"], ["pyv", "json", {"k": "q\"uote"}]]]]]},
     {"cls": "C", "sources": {}, "steps": [["update", [["src", "T"]]], ["join", [["src", "U"], ["enum", "JoinType", "inner"]], {}, ["on", [["eq", ["col", "T", "a"], ["col", "U", "a"]]]]], ["set", [["col", "T", "b"], ["col", "U", "b"]]], ["where", [["gt", ["col", "U", "c"], ["raw", 1]]]]]},
     {"cls": "C", "sources": {}, "steps": [["from_", [["src", "T"]]], ["select", [["star", "T"], ["col", "T", "a"]]], ["join", [["src", "U"], ["enum", "JoinType", "left"]], {}, ["on", [["eq", ["col", "T", "a"], ["col", "U", "a"]]]]], ["select", [["star", "U"]]], ["for_update", [], {"of": ["pytuple", [["py", "t1"], ["py", "t2"], ["py", "zz"], ["py", "aa"]]]}]]},
     {"cls": "C", "sources": {}, "steps": [["with_", [["q", {"cls": "inherit", "sources": {}, "steps": [["from_", [["src", "U"]]], ["select", [["col", "U", "a"]]], ["where", [["eq", ["col", "U", "b"], ["raw", "v"]]]]]}], ["py", "cte1"]]], ["from_", [["src", "T"]]], ["select", [["col", "T", "a"], ["as", ["fn", "Sum", [["col", "T", "b"]]], "s"]]], ["groupby", [["col", "T", "a"]]], ["having", [["gt", ["fn", "Sum", [["col", "T", "b"]]], ["raw", 3]]]], ["orderby", [["col", "T", "a"]], {"order": ["enum", "Order", "desc"]}], ["limit", [["py", 5]]], ["offset", [["py", 2]]]]},
@@ -311,11 +316,17 @@ def valid_case(case):
         return False
 
 
+CTX_ORDERS = ("r", "2", "4")
+
+
 def check_hashseed(roots, seeds):
+    """children 0..len(seeds)-1 differ in PYTHONHASHSEED only; the following ones keep seeds[0] and render the class contexts in another order"""
     env = dict(os.environ)
     results = []
-    for hs in seeds:
+    runs = [(hs, "0") for hs in seeds] + [(seeds[0], o) for o in CTX_ORDERS]
+    for hs, order in runs:
         env["PYTHONHASHSEED"] = str(hs)
+        env["C02_CTX_ORDER"] = order
         env["PYTHONDONTWRITEBYTECODE"] = "1"
         p = subprocess.run([sys.executable, "-m", "pbt.c02child"], input=json.dumps(roots), capture_output=True, text=True, cwd=VERIF_DIR, env=env)
         if p.returncode != 0:
@@ -324,10 +335,14 @@ def check_hashseed(roots, seeds):
     out = []
     bad_idx = []
     for i in range(len(roots)):
-        for k in range(1, len(seeds)):
+        for k in range(1, len(runs)):
             if results[k][i] != results[0][i]:
                 d = snap.diff_keys(results[k][i], results[0][i])
-                out.append((mksig("hashseed", d[0].split(":")[0]), "PYTHONHASHSEED=%s vs %s: %s differs: %r vs %r" % (seeds[k], seeds[0], d[:3], results[k][i].get(d[0]), results[0][i].get(d[0]))))
+                if k < len(seeds):
+                    out.append((mksig("hashseed", d[0].split(":")[0]), "PYTHONHASHSEED=%s vs %s: %s differs: %r vs %r" % (seeds[k], seeds[0], d[:3], results[k][i].get(d[0]), results[0][i].get(d[0]))))
+                else:
+                    out.append((mksig("render_history", d[0].split(":")[0]), "a fresh interpreter that renders the class contexts in order %r instead of the default one: %s differs: %r vs %r" % (
+                        runs[k][1], d[:3], results[k][i].get(d[0]), results[0][i].get(d[0]))))
                 bad_idx.append(i)
                 break
     return out, bad_idx
